@@ -7,7 +7,7 @@ compared byte for byte."""
 import os, sys, random
 sys.path.insert(0, os.path.dirname(os.path.dirname(os.path.abspath(__file__))))
 from vf.core import *
-from vf import routes, corpus, layout
+from vf import routes, corpus, layout, pile
 
 # hand-paired renderings of the same abstract program: (braced, piled)
 PAIRS = [('''#include "aldor"
@@ -135,10 +135,47 @@ def main():
                 r, ap = ap_of(d, 'p%s%d' % (nm, k), t2, 'aldor', None); ncmp += 1
                 for kd in kinds: kinds_seen[kd] = kinds_seen.get(kd, 0) + 1
                 if ap != ref: ctx.violation('layout-changes-parse:pair%d-%s' % (i, nm), 'edits %s' % kinds, files={'orig.as': tx, 'rewritten.as': t2})
+    # generated abstract programs, each rendered braced and piled (vf/pile.py): renderings x token spacing x comment/blank-line
+    # noise x indentation width 1..8 x tabs/spaces must all give the parse tree of the plain braced rendering
+    ngen = ctx.q(600, 4000); nvar = ctx.q(6, 12)
+    gseeds = ['C14-pile-pool/%d' % i for i in range(ngen // 2)] + ['C14-pile-fresh-%d/%d' % (ctx.seed, i) for i in range(ngen - ngen // 2)]
+    gbase = ctx.tmp('g')
+    def gwork(sd):
+        prog, kinds = pile.make(sd)
+        d = os.path.join(gbase, sd.replace('/', '_')); os.makedirs(d, exist_ok=True)
+        tb = pile.braced(prog)
+        r0, a0 = ap_of(d, 'b', tb, 'aldor', None)
+        msgs = r0.out + r0.err
+        bad = []; n = 0; widths = set()
+        if a0 is None or r0.rc != 0 or b'Error' in msgs:
+            shutil.rmtree(d, ignore_errors=True); return sd, kinds, None, bad, 0, widths
+        lr = random.Random('%s/%d' % (sd, ctx.seed))
+        for k in range(nvar):
+            if k == 0: tp, info = pile.piled(prog, lr, width=4, tabs=False, noise=False, spacing=False)
+            else: tp, info = pile.piled(prog, lr)
+            widths.add((info['width'], info['tabs']))
+            r, a = ap_of(d, 'p%d' % k, tp, 'aldor', None); n += 1
+            if a != a0 or r.rc != 0: bad.append(('piled', info, tp, a, r))
+            tv = pile.braced_variant(prog, lr)
+            r, a = ap_of(d, 'v%d' % k, tv, 'aldor', None); n += 1
+            if a != a0 or r.rc != 0: bad.append(('braced', {}, tv, a, r))
+        shutil.rmtree(d, ignore_errors=True)
+        return sd, kinds, tb, bad, n, widths
+    ngood = 0; gkinds = {}; gwidths = set(); ndisc = 0
+    for sd, kinds, tb, bad, n, widths in pmap(gwork, gseeds):
+        if tb is None: ndisc += 1; continue
+        ngood += 1; ncmp += n; gwidths |= widths
+        for kd in kinds: gkinds[kd] = gkinds.get(kd, 0) + 1
+        for which, info, text, a, r in bad:
+            what = '%s: %s rendering %s parses differently from the plain braced rendering (%s)' % (sd, which, info, 'no tree: ' + (r.out + r.err)[-300:].decode(errors='replace') if a is None else 'different tree')
+            ctx.violation('generated:%s-rendering-differs' % which, what, files={'braced.as': tb, 'variant.as': text})
+    inconc = '%d of %d generated programs did not parse in their braced rendering' % (ndisc, len(gseeds)) if ndisc * 10 > len(gseeds) else None
     ctx.sample({'source': chosen[0][0], 'edit_kinds_seen': kinds_seen})
     ctx.assumptions += ['the rewriter only changes existing white-space runs, adds/removes blank and comment lines, splits/joins plain code lines (braced sources) or rescales indentation (piled sources); it never inserts white space between adjacent tokens',
                         'sources with non-ASCII bytes, escapes at line ends or odd string quoting are not rewritten (eligibility filter)']
-    ctx.finish(ncmp, nparsed + len(PAIRS), 'one evaluation = the .ap of one layout variant compared with the .ap of its original; distinct = sources whose original parsed',
-               extra={'sources': nparsed, 'variants_per_source': nrew, 'pool': len(pool), 'edit_kinds': kinds_seen, 'pairs': len(PAIRS)}, min_eval=200)
+    ctx.finish(ncmp, nparsed + len(PAIRS) + ngood, 'one evaluation = the .ap of one layout variant compared with the .ap of its original; distinct = sources whose original parsed',
+               extra={'sources': nparsed, 'variants_per_source': nrew, 'pool': len(pool), 'edit_kinds': kinds_seen, 'pairs': len(PAIRS),
+                      'generated_programs': ngood, 'generated_discarded': ndisc, 'generated_statement_kinds': gkinds, 'renderings_per_generated_program': 2 * nvar,
+                      'indent_width_x_tabs_seen': sorted(gwidths)}, inconclusive=inconc, min_eval=200)
 
 main_guard(main)
